@@ -67,7 +67,7 @@ def outcome(fn, *a, **k):
         return ('crash', type(e).__name__, str(e)[:80])
 
 
-HEAD = 'from typing import List, Dict, Optional, Union, Tuple\nimport utype\nfrom utype import Schema, Field, Options\n'
+HEAD = 'from typing import List, Dict, Optional, Union, Tuple, Iterator\nimport utype\nfrom utype import Schema, Field, Options\n'
 FUTURE = 'from __future__ import annotations\n'
 
 # ------------------------------------------------------------------ system: name defined later (B after A)
@@ -284,6 +284,26 @@ def makefn@@():
 lf@@ = makefn@@()
 
 
+@utype.parse(ignore_params=True)
+def rf@@(x, wrap=False) -> 'Pos@@':
+    return x
+
+
+@utype.parse(ignore_params=True)
+def rl@@(x) -> List['Pos@@']:
+    return [x]
+
+
+@utype.parse
+def gw@@(x) -> 'Iterator[Pos@@]':
+    yield x
+
+
+@utype.parse
+def gi@@(x) -> Iterator['Pos@@']:
+    yield x
+
+
 class C@@(Schema):
     p: 'Pos@@' = Field(le=10)
     q: 'Pos@@' = Field(le=5, default=1)
@@ -332,6 +352,26 @@ def makefn@@():
 lf@@ = makefn@@()
 
 
+@utype.parse(ignore_params=True)
+def rf@@(x, wrap=False) -> Pos@@:
+    return x
+
+
+@utype.parse(ignore_params=True)
+def rl@@(x) -> List[Pos@@]:
+    return [x]
+
+
+@utype.parse
+def gw@@(x) -> Iterator[Pos@@]:
+    yield x
+
+
+@utype.parse
+def gi@@(x) -> Iterator[Pos@@]:
+    yield x
+
+
 def make@@():
     class Local2(Schema):
         v: int = Field(ge=0, default=0)
@@ -366,6 +406,19 @@ def _misc(V, target):
                 d['both'] = [num(V, 'b%d' % i, -2, 12) for i in range(V.pick('n_both', [1, 2, 3] if V.thorough else [1, 2]))]
             r1, r2 = outcome(getattr(fwd, 'C%d' % n1), **d), outcome(getattr(direct, 'C%d' % n2), **d)
             V.check(r1 == r2, 'forward:differs:constrained-field', lambda: 'C(**%r): forward %r ; direct %r' % (d, r1, r2))
+        elif target == 'return-only':
+            x = num(V, 'x')
+            fn = V.pick('fn', ['rf', 'rl', 'gw', 'gi'])
+            out = []
+            for mod, n in ((fwd, n1), (direct, n2)):
+                f = getattr(mod, fn + str(n))
+                if fn in ('gw', 'gi'):
+                    # generators: the whole annotation as one string ('Iterator[Pos]') or the argument only (Iterator['Pos'])
+                    out.append([outcome(lambda: list(f(x))), outcome(lambda: list(f(x)))])
+                else:
+                    out.append([outcome(f, x), outcome(f, x)])
+            V.check(out[0] == out[1], 'forward:differs:return-only',
+                    lambda: '%s(%r) (ignore_params=True) called twice: forward %r ; direct %r' % (fn, x, out[0], out[1]))
         elif target == 'local-function':
             item = {'p': num(V, 'p')}
             rest = [num(V, 'r%d' % i) for i in range(V.pick('n_rest', [0, 1, 2] if V.thorough else [0, 1]))]
@@ -401,10 +454,10 @@ def _misc(V, target):
         unload(fwd, direct)
 
 
-for _t in ('class', 'function', 'local', 'local-function'):
+for _t in ('class', 'function', 'local', 'local-function', 'return-only'):
     ob('misc/' + _t, marks=[_t], budget=(150, 400),
        bounds="the same forward name in several constrained annotations ('Pos' = Field(le=10), 'Pos' = Field(le=5), List['Pos']), a "
-              "decorated function with forward-referenced parameter / default / return types, a function-local decorated function (parameter, *args, **kwargs and return "
+              "decorated function with forward-referenced parameter / default / return types, functions decorated with ignore_params=True whose return type names a later class ('Pos', List['Pos']), a function-local decorated function (parameter, *args, **kwargs and return "
               "types naming module-level classes defined later; called twice), and function-local classes (self reference "
               'and a module-level name defined later, created twice) -- target %s; solver-chosen call order and inputs (ints in -3..3 / '
               '"3" / "x"); same outcome as the direct declarations' % _t)((lambda t: lambda V: _misc(V, t))(_t))
@@ -665,6 +718,20 @@ def tree_of@@(t):
 Tree = tree_of@@(int)
 StrTree@@ = tree_of@@(str)
 IntTree@@ = Tree
+
+
+def nest_of@@(t):
+    class Outer(Schema):
+        class Item(Schema):
+            v: t
+            more: List['Item'] = Field(default_factory=list)
+            nxt: Optional['Item'] = None
+        first: Item
+    return Outer
+
+
+IntNest@@ = nest_of@@(int)
+StrNest@@ = nest_of@@(str)
 '''
 FACTORY_DIRECT = HEAD + '''
 class S3_@@(Schema):
@@ -697,6 +764,46 @@ class IntTree@@(Schema):
     v: int
     kids: List[I2_@@] = Field(default_factory=list)
     up: Optional[I2_@@] = None
+
+
+class StrN3_@@(Schema):
+    v: str
+
+
+class StrN2_@@(Schema):
+    v: str
+    more: List[StrN3_@@] = Field(default_factory=list)
+    nxt: Optional[StrN3_@@] = None
+
+
+class StrN1_@@(Schema):
+    v: str
+    more: List[StrN2_@@] = Field(default_factory=list)
+    nxt: Optional[StrN2_@@] = None
+
+
+class StrNest@@(Schema):
+    first: StrN1_@@
+
+
+class IntN3_@@(Schema):
+    v: int
+
+
+class IntN2_@@(Schema):
+    v: int
+    more: List[IntN3_@@] = Field(default_factory=list)
+    nxt: Optional[IntN3_@@] = None
+
+
+class IntN1_@@(Schema):
+    v: int
+    more: List[IntN2_@@] = Field(default_factory=list)
+    nxt: Optional[IntN2_@@] = None
+
+
+class IntNest@@(Schema):
+    first: IntN1_@@
 '''
 
 
@@ -733,7 +840,7 @@ def premature(V):
 
 @ob('class-factory', marks=['str', 'int'], budget=(100, 400),
     bounds="a class factory defining a self-referencing class (List['Tree'], Optional['Tree']) is called twice (int and str "
-           'payload), the first product is bound at module level under the class\'s own name; the second product must parse '
+           'payload), the first product is bound at module level under the class\'s own name; also with the self-referencing class nested inside the function-local class; the second product must parse '
            'nested values with ITS payload type; inputs of depth <= 3 with solver ints -3..3 / "3" / "x"; same outcome as explicit '
            'classes with direct references')
 def class_factory(V):
@@ -743,7 +850,9 @@ def class_factory(V):
     try:
         which = V.pick('which', ['str', 'int'])
         name = 'StrTree' if which == 'str' else 'IntTree'
-        if V.bool('other_first'):
+        other_first = V.bool('other_first')
+        nested = V.bool('nested_class')
+        if other_first and not nested:
             other = 'IntTree' if which == 'str' else 'StrTree'
             outcome(getattr(fwd, other + str(n1)), v=1, kids=[{'v': 2}])
         d = {'v': num(V, 'v', -3, 3)}
@@ -754,6 +863,13 @@ def class_factory(V):
             d['up'] = {'v': num(V, 'u', -3, 3)}
         elif shape == 'kids.kids':
             d['kids'] = [{'v': 1, 'kids': [{'v': num(V, 'kk', -3, 3)}]}]
+        if nested:
+            # the self-referencing class is nested inside the function-local class
+            name = 'StrNest' if which == 'str' else 'IntNest'
+            if other_first:
+                outcome(getattr(fwd, ('IntNest' if which == 'str' else 'StrNest') + str(n1)), first={'v': 1, 'more': [{'v': 2}]})
+            d = {'first': {('more' if k == 'kids' else 'nxt' if k == 'up' else k): (
+                [{('more' if kk == 'kids' else kk): vv for kk, vv in x.items()} for x in v] if k == 'kids' else v) for k, v in d.items()}}
         r1, r2 = strip(outcome(getattr(fwd, name + str(n1)), **d)), strip(outcome(getattr(direct, name + str(n2)), **d))
         V.check(r1 == r2, 'forward:differs:class-factory', lambda: '%s(**%r): factory product %r ; explicit classes %r' % (name, d, r1, r2))
         V.cover(which)
